@@ -12,4 +12,4 @@ Separate Extraction
   Dom.step Dom.heap_of Dom.get_elements_by_type Dom.get_style_by_name Construct.construct Construct.set_attribute EasyList.style_from_list EasyList.style_from_string EasyList.css_split UserField.update UserField.list_fields_and_values Package.save_m Package.load_m Package.add_object Package.classify ParseSites.load_reads LoadStyles.load_all LoadStyles.new_name GrammarInst.i_add_element GrammarInst.i_add_text GrammarInst.i_set_attribute GrammarInst.i_construct GrammarInst.selems LoadInst.i_load_doc ConvInst.i_convert ConvInst.i_valid Html.h_escape Html.h_quoteattr Html.h_opentag Html.h_closetag Html.h_emptytag
   DomCheck.lheap DomCheck.wf_ok DomCheck.idx_ok DomCheck.comp_ok DomCheck.op_okb DomCheck.keeps_topb
   HtmlDoc.h_render HtmlDoc.wellnested HtmlDoc.ev_ok
-  FixPart.fix_part FixPart.root_start FixPart.root_begin FixPart.root_stop.
+  FixPart.fix_part FixPart.root_start FixPart.root_begin FixPart.root_stop FixPart.is_odf_part.
